@@ -7,10 +7,10 @@ pid, m = sys.argv[1], sys.argv[2]
 wave = os.environ.get("WAVE", "")          # WAVE=2 -> worktree /tmp/wt2-<ID>, id <ID>-w2<m>
 wt = f"/tmp/wt{wave}-{pid}"; src = f"{wt}/seeded_out/{m}"; dst = f"/verif/seeded/{pid}-{('w'+wave) if wave else ''}{m}"
 prop = pid
-if wave == "3":
+if wave in ("3", "4"):
     # round 3 is organised by source area (A..F); the property comes from argv[3] or the first Cxx named in notes.md
     import re
-    dst = f"/verif/seeded/W3{pid}-{m}"
+    dst = f"/verif/seeded/W{wave}{pid}-{m}"
     txt = open(f"{src}/notes.md").read() if os.path.exists(f"{src}/notes.md") else ""
     mm = re.search(r"C(0[1-9]|1[0-9])", txt)
     prop = sys.argv[3] if len(sys.argv) > 3 and sys.argv[3].startswith("C") else (mm.group(0) if mm else "C01")
